@@ -169,6 +169,52 @@ def run(ctx):
             if what and len(ctx.violations) < 40:
                 ctx.report("%s; base spelling %r, re-spelled %r (layout %s)" % (what, res[0][1][:120], text[:160], {k: v for k, v in lay.items() if v != BASE[k]}), "c13:" + text,
                            {"base": res[0][1], "respelled": text, "layout": lay, "base_results": base[:2], "respelled_results": r[:2]}, case={"schema": text})
+    # rule order inside the rule-sets of an "or" rule (a second loader handles them)
+    import itertools
+    sets = {"A": [("type", '"integer"'), ("min", "0"), ("exclusiveMinimum", "true")], "B": [("type", '"string"'), ("minLength", "1"), ("maxLength", "9")],
+            "C": [("type", '"integer"'), ("max", "10"), ("exclusiveMaximum", "true"), ("min", "-5")], "D": [("type", '"float"'), ("precision", "2"), ("min", "0.5")]}
+    ogroups = []
+    for names, ex in ((("A", "B"), "5"), (("C", "B"), "5"), (("B", "C"), '"s"'), (("A", "D"), "5")):
+        perms = [list(itertools.permutations(sets[nm])) for nm in names]
+        combos = list(itertools.product(*perms))
+        if quick:
+            combos = combos[:1] + rng.sample(combos[1:], min(len(combos) - 1, 12))
+        texts = []
+        for combo in combos:
+            q = rng.random() < 0.3
+            texts.append("%s // {or: [%s]}" % (ex, ", ".join("{%s}" % ", ".join(('"%s": %s' if q else "%s: %s") % kv for kv in rs) for rs in combo)))
+        ogroups.append(texts)
+    oprobes = ["5", "0", "-1", "-5", "10", "11", '"x"', '""', '"0123456789"', "true", "0.5", "0.25", "1.234"]
+    olines = [json.dumps({"schema": t, "ops": [["check"], ["ast"]] + [["validate", p] for p in oprobes]}) for g in ogroups for t in g]
+    oouts = vc.impl_parallel(["schema"], olines)
+    i = 0
+
+    def canon_props(a):
+        if isinstance(a, dict):
+            d = {k: canon_props(v) for k, v in a.items()}
+            if "props" in d:
+                d["props"] = sorted(d["props"], key=lambda r: json.dumps(r, sort_keys=True))
+            return d
+        if isinstance(a, list):
+            return [canon_props(x) for x in a]
+        return a
+    for g in ogroups:
+        rs = [json.loads(oouts[i + j]) for j in range(len(g))]
+        i += len(g)
+        ctx.evaluations += len(g)
+        base = rs[0]
+        for t, r in zip(g[1:], rs[1:]):
+            what = None
+            if r[0] != base[0]:
+                what = "Check verdict changes with the order of the rules inside an or rule-set: %s vs %s" % (base[0], r[0])
+            elif r[0] == "ok":
+                if r[1].startswith("A:") and base[1].startswith("A:") and json.dumps(canon_props(strip_comments(json.loads(base[1][2:]))), sort_keys=True) != json.dumps(canon_props(strip_comments(json.loads(r[1][2:]))), sort_keys=True):
+                    what = "the AST (rule order aside) changes with the order of the rules inside an or rule-set"
+                elif [x == "ok" for x in r[2:]] != [x == "ok" for x in base[2:]]:
+                    what = "validation verdicts change with the order of the rules inside an or rule-set: %s vs %s" % (base[2:], r[2:])
+            if what and len(ctx.violations) < 40:
+                ctx.report("%s; base %r, re-ordered %r" % (what, g[0], t), "c13or:" + t, {"base": g[0], "respelled": t, "base_results": base, "respelled_results": r}, case={"schema": t})
+    ctx.extra["or_rule_set_orderings"] = sum(len(g) for g in ogroups)
     UQ.check_unquote(ctx, st, quick, "c13")
     ctx.extra["schemas"] = len(groups)
     ctx.extra["spellings"] = len(lines)
